@@ -342,6 +342,15 @@ func KVAlphabet() []Op {
 		return func([]byte) ([]byte, *uint32, bool, error) { e := uint32(relExp); return updBody, &e, false, nil }
 	}, 0, replaceSpec(relExp))
 
+	update("exponly", 0, func(*int) sgbucket.UpdateFunc {
+		return func([]byte) ([]byte, *uint32, bool, error) { e := uint32(relExp); return nil, &e, false, nil }
+	}, 0, func(pre Doc, env Env) Expect {
+		if !pre.Live {
+			return Expect{} // expiry-only update of a key without a body: spec-silent
+		}
+		return Expect{Live: Yes, Body: pre.Body, XSet: true, X: copyX(pre.X), ExpSet: true, Exp: AbsExp(relExp, env.Now)}
+	})
+
 	// ---- Incr ------------------------------------------------------------------------------
 	incr := func(name string, e uint32, tier int) {
 		add(Op{Name: name, EP: "Incr", Tier: tier,
